@@ -190,14 +190,21 @@ func c11RefEval(t *c11Tree, root string, segs []c11Seg) []string {
 // Workflow with the expression at every position class
 
 type c11Position struct {
-	Name   string `json:"name"`
-	Script bool   `json:"script_position"`
-	Line   int    `json:"line"`
+	Name    string  `json:"name"`
+	Script  bool    `json:"script_position"`
+	Line    int     `json:"line"`
+	EndLine int     `json:"end_line"`
+	Ctx     *c11Ctx `json:"context,omitempty"` // nil: the simple single-line contexts
 }
 
 var c11PositionNames = []string{"run", "github-script.script", "github-script.other-input", "with-other-action", "env-step", "if-placeholder", "step-name", "working-directory", "if-bare", "env-run-step", "other-action.script"}
 
-func c11Workflow(r *Rand, expr string) (string, []c11Position) {
+// c11Workflow renders the workflow that holds the expression at every position class.
+// ctxMode 0: simple single-line text around the placeholder, plain or double-quoted scalars.
+// ctxMode 1: every position gets a context drawn from the shell / JavaScript template pools and a
+// YAML style (quoted, literal / folded block scalar with the placeholder on a later line, CRLF).
+// sys >= 0 (with ctxMode 1) selects template and style of the two script positions systematically.
+func c11Workflow(r *Rand, expr string, ctxMode, sys int) (string, []c11Position) {
 	b := NewYB()
 	var ps []c11Position
 	ph := "${{ " + expr + " }}"
@@ -211,9 +218,26 @@ func c11Workflow(r *Rand, expr string) (string, []c11Position) {
 		}
 		return s
 	}
-	at := func(name string, script bool, indent int, key, val string) {
-		p := b.L(indent, key+": "+val)
-		ps = append(ps, c11Position{name, script, p.Line})
+	// at writes one position. simple is the ctxMode-0 text; lang selects the template pool.
+	at := func(name string, script bool, indent int, key, simple string, lang int) {
+		if ctxMode == 0 || lang < 0 {
+			p := b.L(indent, key+": "+simple)
+			ps = append(ps, c11Position{Name: name, Script: script, Line: p.Line, EndLine: p.Line})
+			return
+		}
+		s := -1
+		if script {
+			s = sys
+		}
+		tpl, style := c11PickCtx(r, lang, s)
+		if name == "if-placeholder" && r.Intn(3) != 0 {
+			tpl, style = "@@", "dq" // text around the placeholder of an if: draws foreign diagnostics
+		}
+		text := strings.Replace(tpl, "@@", ph, 1)
+		style = c11StyleFor(text, style)
+		l0, l1 := c11WriteScalar(b, indent, key, text, style)
+		ctx := &c11Ctx{Template: tpl, Style: style, Feats: append(c11CtxFeatures(tpl), "style-"+style)}
+		ps = append(ps, c11Position{Name: name, Script: script, Line: l0, EndLine: l1, Ctx: ctx})
 	}
 	b.L(0, "on: push")
 	b.L(0, "jobs:")
@@ -225,29 +249,39 @@ func c11Workflow(r *Rand, expr string) (string, []c11Position) {
 	b.L(4, "steps:")
 	pre := r.Pick([]string{"echo ", "echo '", "FOO=", "if [ ", "x ", "echo "})
 	post := r.Pick([]string{"", "'", " ]; then echo; fi", " | cat", ""})
-	at("run", true, 6, "- run", sc(pre+ph+post))
+	at("run", true, 6, "- run", sc(pre+ph+post), 0)
 	b.L(6, "- uses: actions/github-script@"+r.Pick([]string{"v7", "v7", "main", "60a0d83039c74a4aee543508d2ffcb1c3799cdea", "v7.0.1"}))
 	b.L(8, "with:")
 	// action input keys are case-insensitive (GitHub and actionlint's parser fold them), so the
 	// script input may be spelled Script / SCRIPT as well
-	at("github-script.script", true, 10, r.Pick([]string{"script", "script", "script", "Script", "SCRIPT", "scRipt"}), sc(r.Pick([]string{"console.log(", "return ", "core.info(`"})+ph+r.Pick([]string{")", "", "`)"})))
-	at("github-script.other-input", false, 10, r.Pick([]string{"github-token", "result-encoding", "retries"}), sc(ph))
+	at("github-script.script", true, 10, r.Pick([]string{"script", "script", "script", "Script", "SCRIPT", "scRipt"}), sc(r.Pick([]string{"console.log(", "return ", "core.info(`"})+ph+r.Pick([]string{")", "", "`)"})), 1)
+	at("github-script.other-input", false, 10, r.Pick([]string{"github-token", "result-encoding", "retries"}), sc(ph), 2)
 	b.L(6, "- uses: actions/checkout@v4")
 	b.L(8, "with:")
-	at("with-other-action", false, 10, r.Pick([]string{"ref", "path", "token"}), sc(ph))
+	at("with-other-action", false, 10, r.Pick([]string{"ref", "path", "token"}), sc(ph), 2)
 	b.L(8, "env:")
-	at("env-step", false, 10, "FOO", sc(r.Pick([]string{"", "x "})+ph))
-	at("if-placeholder", false, 8, "if", sc(ph))
+	at("env-step", false, 10, "FOO", sc(r.Pick([]string{"", "x "})+ph), 2)
+	at("if-placeholder", false, 8, "if", sc(ph), 2)
 	b.L(6, "- run: echo")
-	at("step-name", false, 8, "name", sc(r.Pick([]string{"", "Build "})+ph))
-	at("working-directory", false, 8, "working-directory", sc(ph))
-	at("if-bare", false, 8, "if", `"`+expr+`"`)
+	at("step-name", false, 8, "name", sc(r.Pick([]string{"", "Build "})+ph), 2)
+	at("working-directory", false, 8, "working-directory", sc(ph), 2)
+	at("if-bare", false, 8, "if", `"`+expr+`"`, -1)
 	b.L(8, "env:")
-	at("env-run-step", false, 10, "BAR", sc(ph))
+	at("env-run-step", false, 10, "BAR", sc(ph), 0)
 	b.L(6, "- uses: some-org/other-action@v1")
 	b.L(8, "with:")
-	at("other-action.script", false, 10, "script", sc("console.log("+ph+")"))
-	return b.String(), ps
+	at("other-action.script", false, 10, "script", sc("console.log("+ph+")"), 1)
+	src := b.String()
+	if ctxMode == 1 && r.Intn(4) == 0 {
+		// the whole file with CRLF line breaks
+		src = strings.ReplaceAll(src, "\n", "\r\n")
+		for i := range ps {
+			if ps[i].Ctx != nil {
+				ps[i].Ctx.Feats = append(ps[i].Ctx.Feats, "crlf-file")
+			}
+		}
+	}
+	return src, ps
 }
 
 // ---------------------------------------------------------------------------
@@ -286,34 +320,54 @@ type c11Observed struct {
 	// per position name: set of reports, each report = sorted paths joined by " + "
 	reports  map[string][]string
 	forms    map[string]bool
-	other    []string // diagnostics that make the case "not evaluated"
+	other    map[string][]string // foreign diagnostics per position ("" = outside every position)
 	unparsed []string
 	stray    []string // untrusted diagnostics on a line that is no position
 }
 
-func c11Observe(ds []Diag, ps []c11Position) *c11Observed {
-	o := &c11Observed{reports: map[string][]string{}, forms: map[string]bool{}}
-	byLine := map[int]string{}
+// notEvaluated: the expression as a whole cannot be judged (foreign diagnostic at a script position
+// or outside all positions - a syntax/semantic error of the expression appears at every position).
+func (o *c11Observed) notEvaluated(ps []c11Position) []string {
+	out := append([]string(nil), o.other[""]...)
 	for _, p := range ps {
-		byLine[p.Line] = p.Name
+		if p.Script {
+			out = append(out, o.other[p.Name]...)
+		}
+	}
+	return out
+}
+
+func c11Observe(ds []Diag, ps []c11Position) *c11Observed {
+	o := &c11Observed{reports: map[string][]string{}, forms: map[string]bool{}, other: map[string][]string{}}
+	posAt := func(line int) *c11Position {
+		for i := range ps {
+			if ps[i].Line <= line && line <= ps[i].EndLine {
+				return &ps[i]
+			}
+		}
+		return nil
 	}
 	for _, d := range ds {
 		paths, form, isU, ok := c11ParseReport(d.Msg)
+		p := posAt(d.Line)
 		switch {
 		case isU && !ok:
 			o.unparsed = append(o.unparsed, d.String())
 		case isU:
-			name, known := byLine[d.Line]
-			if !known {
+			if p == nil {
 				o.stray = append(o.stray, d.String())
 				continue
 			}
-			o.reports[name] = append(o.reports[name], strings.Join(paths, " + "))
+			o.reports[p.Name] = append(o.reports[p.Name], strings.Join(paths, " + "))
 			o.forms[form] = true
 		case strings.HasPrefix(d.Msg, c11TemplateTypeMsg):
 			// produced after (and independently of) the semantic check of the placeholder
+		case p != nil && p.Name == "if-placeholder" && d.Kind == "if-cond":
+			// another rule's remark about text around the placeholder of an if: condition
+		case p == nil:
+			o.other[""] = append(o.other[""], d.String())
 		default:
-			o.other = append(o.other, d.String())
+			o.other[p.Name] = append(o.other[p.Name], d.String())
 		}
 	}
 	for k := range o.reports {
@@ -368,6 +422,9 @@ type c11Mismatch struct {
 func c11Compare(e *c11E, o *c11Observed, ps []c11Position) []c11Mismatch {
 	var out []c11Mismatch
 	for _, p := range ps {
+		if len(o.other[p.Name]) > 0 {
+			continue // this position drew a foreign diagnostic: not judged
+		}
 		var want []string
 		if p.Script {
 			want = e.Reports()
@@ -382,8 +439,13 @@ func c11Compare(e *c11E, o *c11Observed, ps []c11Position) []c11Mismatch {
 }
 
 // c11Eval lints one expression at all positions and applies the oracle. fam tags coverage.
-func c11Eval(c *Case, e *c11E, tag string, sample bool) {
-	src, ps := c11Workflow(c.R, e.Txt)
+// sys >= 0 sweeps the script contexts systematically; sys < 0 draws simple or rich contexts at random.
+func c11Eval(c *Case, e *c11E, tag string, sample bool, sys int) {
+	ctxMode := 1
+	if sys < 0 && c.R.Bool() {
+		ctxMode = 0
+	}
+	src, ps := c11Workflow(c.R, e.Txt, ctxMode, sys)
 	ds, err := lintSrc(src)
 	c.Eval(1)
 	detail := func(o *c11Observed, mm []c11Mismatch) map[string]interface{} {
@@ -410,15 +472,16 @@ func c11Eval(c *Case, e *c11E, tag string, sample bool) {
 		c.Violation("C11:report-outside-any-position", "an untrusted-input diagnostic is located on a line that holds no expression: "+o.stray[0], detail(o, nil))
 		return
 	}
-	if len(o.other) > 0 {
-		// a syntax/semantic error of the expression (or any foreign diagnostic): the verdict of the
-		// statement is not unambiguous for such input -> not evaluated, but counted.
+	if ne := o.notEvaluated(ps); len(ne) > 0 {
+		// a syntax/semantic error of the expression (or any foreign diagnostic at a script
+		// position): the verdict of the statement is not unambiguous for such input -> not
+		// evaluated, but counted.
 		c.Count("not_evaluated_other_diagnostics", 1)
 		c.Count("not_evaluated:"+tag, 1)
 		if e.UpperIndex {
 			c.Count("not_evaluated_with_uppercase_string_index", 1)
 		}
-		for _, d := range o.other {
+		for _, d := range ne {
 			if i := strings.Index(d, ": "); i >= 0 {
 				d = d[i+2:]
 			}
@@ -429,7 +492,16 @@ func c11Eval(c *Case, e *c11E, tag string, sample bool) {
 	c.Count("evaluated", 1)
 	c.Count("evaluated:"+tag, 1)
 	for _, p := range ps {
+		if len(o.other[p.Name]) > 0 {
+			// a non-script position whose own text drew a foreign diagnostic (e.g. an if: that is
+			// no expression as a whole): that position alone is not judged
+			c.Count("position_not_evaluated:"+p.Name, 1)
+			continue
+		}
 		c.SetAdd("positions_evaluated", p.Name)
+		if p.Ctx != nil {
+			c.Count("rich_context_positions_evaluated", 1)
+		}
 	}
 	for f := range o.forms {
 		c.SetAdd("diagnostic_forms_seen", f)
@@ -477,6 +549,20 @@ func c11Eval(c *Case, e *c11E, tag string, sample bool) {
 					}
 				}
 			}
+			if p.Ctx != nil && len(o.other[p.Name]) == 0 {
+				// a context counts as covered at a script position only when a report was due there
+				// (and came); at non-script positions when something untrusted was read (and not reported)
+				for _, f := range p.Ctx.Feats {
+					if p.Script && len(want) > 0 {
+						c.SetAdd("script_contexts:"+p.Name, f)
+					} else if !p.Script && len(want) > 0 {
+						c.SetAdd("non_script_contexts", f)
+					}
+				}
+				if p.Script && len(want) > 0 {
+					c.SetAdd("script_templates:"+p.Name, p.Ctx.Template)
+				}
+			}
 		}
 		if sample {
 			c.Sample(map[string]interface{}{"family": c.Fam, "expr": e.Txt, "expected_reports": want, "observed_run": o.reports["run"], "observed_script": o.reports["github-script.script"], "non_script_positions_reported": 0})
@@ -487,13 +573,13 @@ func c11Eval(c *Case, e *c11E, tag string, sample bool) {
 	// ---- triage of every disagreeing position into a narrow signature
 	relint := func(expr string) map[string]c11Mismatch {
 		out := map[string]c11Mismatch{}
-		src2, ps2 := c11Workflow(NewRand(1, "c11-triage"), expr)
+		src2, ps2 := c11Workflow(NewRand(1, "c11-triage"), expr, 0, -1)
 		ds2, err2 := lintSrc(src2)
 		if err2 != nil {
 			return nil
 		}
 		o2 := c11Observe(ds2, ps2)
-		if len(o2.other)+len(o2.unparsed)+len(o2.stray) > 0 {
+		if len(o2.notEvaluated(ps2))+len(o2.unparsed)+len(o2.stray) > 0 {
 			return nil
 		}
 		for _, x := range c11Compare(e, o2, ps2) {
@@ -511,7 +597,40 @@ func c11Eval(c *Case, e *c11E, tag string, sample bool) {
 	if e.UpperIndex || e.StarLiteral {
 		vA, vB, vAB = relint(txtA), relint(txtB), relint(strings.ReplaceAll(txtA, "'*'", "'zz'"))
 	}
+	// Does the disagreement depend on the text around the placeholder / the YAML style? Decided by
+	// linting the same expression again with the simple contexts.
+	var vPlain map[string]c11Mismatch
+	ctxOf := map[string]*c11Ctx{}
+	for _, p := range ps {
+		if p.Ctx != nil {
+			ctxOf[p.Name] = p.Ctx
+		}
+	}
+	if len(ctxOf) > 0 {
+		vPlain = relint(e.Txt)
+	}
 	for _, m := range mm {
+		if ctx := ctxOf[m.Pos]; ctx != nil && vPlain != nil {
+			if _, still := vPlain[m.Pos]; !still {
+				cls := ctx.Feats[0]
+				for _, f := range ctx.Feats { // the most specific class first
+					if f == "close2-before" || f == "placeholder-after-first-line" {
+						cls = f
+						break
+					}
+				}
+				kind := "missed"
+				if len(m.Spurious) > 0 {
+					kind = "spurious"
+				}
+				d := detail(o, mm)
+				d["context"] = ctx
+				d["agrees_with_simple_context"] = true
+				c.Violation("C11:context-dependent:"+kind+":"+m.Pos+":"+cls,
+					fmt.Sprintf("%s at %s inside the text %q (YAML style %s): expected %q, reported %q; with a simple text around the placeholder the reports are as expected", e.Txt, m.Pos, ctx.Template, ctx.Style, want, o.reports[m.Pos]), d)
+				continue
+			}
+		}
 		if vA != nil && vB != nil && vAB != nil {
 			_, stillAB := vAB[m.Pos]
 			explained := !stillAB
@@ -570,10 +689,11 @@ func c11Eval(c *Case, e *c11E, tag string, sample bool) {
 
 func runC11(r *Run) {
 	t := c11BuildTree()
-	r.Rule = "expressions built from a model: 1-4 access chains over the exported BuiltinUntrustedInputs tree (untrusted leaf, trusted sibling, strict prefix, extension, extra/missing index, object filter .* in place of names, foreign root), every name segment as .name or ['name'] in lower/UPPER/mixed case, array segments as [0] / [<number expr>] / .*, prefixes in parentheses, embedded in ! && || == != < <= > >=, parentheses, index positions of other chains, arguments of format/join/toJSON/fromJSON and of contains/startsWith/endsWith (function names in any letter case); each expression is linted once in a workflow holding it at 2 script positions (run:, script: of actions/github-script) and 9 non-script positions (other input of github-script, with: of another action, script: input of another action, step env: twice, if: as placeholder and bare, step name:, working-directory:). Family spelling-x-embedding enumerates every leaf x every spelling of every segment (6 per name, 3 per array segment) with depth-1 embeddings (quick: one embedding per spelling, rotating; thorough: all). Non-trivial = distinct evaluated expression for which the reference model expects at least one report."
+	r.Rule = "expressions built from a model: 1-4 access chains over the exported BuiltinUntrustedInputs tree (untrusted leaf, trusted sibling, strict prefix, extension, extra/missing index, object filter .* in place of names, foreign root), every name segment as .name or ['name'] in lower/UPPER/mixed case, array segments as [0] / [<number expr>] / .*, prefixes in parentheses, embedded in ! && || == != < <= > >=, parentheses, index positions of other chains, arguments of format/join/toJSON/fromJSON and of contains/startsWith/endsWith (function names in any letter case); each expression is linted once in a workflow holding it at 2 script positions (run:, script: of actions/github-script) and 9 non-script positions (other input of github-script, with: of another action, script: input of another action, step env: twice, if: as placeholder and bare, step name:, working-directory:). The text around the (single) placeholder is, for half of the lints, a simple one-line text, otherwise every position draws a realistic shell / JavaScript / Python fragment (with }} , {{ , ${VAR}, ${A:-${B}}, $(…), backticks, heredocs, $ right before the placeholder, closing braces after it, placeholder on the 2nd..nth line) written as plain / single- / double-quoted (also with \\r\\n escapes) / literal | |- |+ / folded > scalar, a quarter of those files with CRLF line breaks; family script-context sweeps every template x style at both script positions; the expected reports never depend on the context. Family spelling-x-embedding enumerates every leaf x every spelling of every segment (6 per name, 3 per array segment) with depth-1 embeddings (quick: one embedding per spelling, rotating; thorough: all). Non-trivial = distinct evaluated expression for which the reference model expects at least one report."
 	r.Assume("`.name` and `['name']` with a string literal are the name accesses of the statement; an index that is any other expression is an array index. Dynamic string indices (github.event[env.K]), numeric strings (pages['0']) and values that reach a property through an operator or a call result ((a && github.event.issue).title, fromJSON(toJSON(github.event)).issue.title) are outside the statement and are not generated")
 	r.Assume("object filter semantics as documented/pinned by the project: `.*` on an object yields the union over its members, on an array its elements; an index directly applied to a filtered array picks one of the filtered values")
 	r.Assume("an expression for which the linter emits any other diagnostic than untrusted-input reports and the template-type note (which is produced after the check) is counted as not evaluated")
+	r.Assume("a foreign diagnostic at a non-script position only (an if: whose text is no expression as a whole) takes that position alone out of the comparison; the if-cond rule's remark about text around the placeholder of an if: is ignored")
 	r.Assume("one placeholder per scalar: the expression rule stops at the first placeholder with an error, so later placeholders of the same script are not checked (C03/C09 territory)")
 	r.Assume("a read that occurs twice may be reported once or twice: sets of reported paths are compared, multiplicity is recorded only")
 
@@ -666,7 +786,7 @@ func runC11(r *Run) {
 				g := c11NewGen(c.R, t)
 				ch := g.leafChainSpelled(t.leaves[sc.leaf], sc.idx, (k+emb)%2 == 1)
 				e := g.embed1(emb, ch)
-				c11Eval(c, e, "exhaustive", c.Idx == 0 && k-lo < 3)
+				c11Eval(c, e, "exhaustive", c.Idx == 0 && k-lo < 3, -1)
 				c.SetAdd("leaf_x_embedding", fmt.Sprintf("%d/%d", sc.leaf, emb))
 			}
 		}
@@ -682,7 +802,7 @@ func runC11(r *Run) {
 				g := c11NewGen(c.R, t)
 				ch := g.chainFromSpec(spec.kind, "github", spec.segs, 0, 0)
 				e := g.embed1(c.R.Intn(nEmb), ch)
-				c11Eval(c, e, "neighbours", c.Idx == 0 && rep == 0 && si < 3)
+				c11Eval(c, e, "neighbours", c.Idx == 0 && rep == 0 && si < 3, -1)
 			}
 		}
 	}})
@@ -699,7 +819,30 @@ func runC11(r *Run) {
 			depth := c.R.Range(1, 5)
 			e := g.expr(depth, nch)
 			c.Count(fmt.Sprintf("random_chains_per_expression:%d", len(e.Chains)), 1)
-			c11Eval(c, e, "random", c.Idx == 0 && k < 5)
+			c11Eval(c, e, "random", c.Idx == 0 && k < 5, -1)
+		}
+	}})
+
+	// ---- family 4: sweep of the script contexts: every template x every YAML style at both script
+	// positions, with expressions that read something untrusted (leaf chains in depth-1 embeddings
+	// and random deep expressions)
+	nCombos := len(c11ShellTemplates) * 6
+	if n := len(c11JSTemplates) * 6; n > nCombos {
+		nCombos = n
+	}
+	fams = append(fams, &Family{Name: "script-context", N: r.Q(2, 40) * nCombos / 8, Do: func(c *Case) {
+		for k := 0; k < 8; k++ {
+			sys := c.Idx*8 + k
+			g := c11NewGen(c.R, t)
+			var e *c11E
+			if c.R.Bool() {
+				leaf := t.leaves[c.R.Intn(len(t.leaves))]
+				ch := g.chainFromSpec("leaf", "github", c11LeafSegs(leaf, c.R, 1), 0, 0)
+				e = g.embed1(c.R.Intn(nEmb), ch)
+			} else {
+				e = g.expr(c.R.Range(1, 4), 1+c.R.Intn(3))
+			}
+			c11Eval(c, e, "context", c.Idx == 0 && k < 2, sys)
 		}
 	}})
 
@@ -709,7 +852,7 @@ func runC11(r *Run) {
 	}
 
 	// ---- coverage floors
-	for _, tag := range []string{"exhaustive", "neighbours", "random"} {
+	for _, tag := range []string{"exhaustive", "neighbours", "random", "context"} {
 		ev, ne := r.Counter("evaluated:"+tag), r.Counter("not_evaluated:"+tag)
 		floor := int64(80)
 		if tag == "exhaustive" {
@@ -731,6 +874,24 @@ func runC11(r *Run) {
 			if !r.SetHas("paths_reported:"+pos, l.path()) {
 				r.Inconclusive(fmt.Sprintf("leaf %s never seen correctly reported at %s", l.path(), pos))
 			}
+		}
+	}
+	for _, pos := range []string{"run", "github-script.script"} {
+		for _, f := range c11RequiredContextFeatures {
+			if !r.SetHas("script_contexts:"+pos, f) {
+				r.Inconclusive(fmt.Sprintf("script context class %s never seen with a due and correct report at %s", f, pos))
+			}
+		}
+	}
+	if n := r.SetLen("script_templates:run"); n < len(c11ShellTemplates) {
+		r.Inconclusive(fmt.Sprintf("only %d of %d shell templates seen with a due and correct report at run", n, len(c11ShellTemplates)))
+	}
+	if n := r.SetLen("script_templates:github-script.script"); n < len(c11JSTemplates) {
+		r.Inconclusive(fmt.Sprintf("only %d of %d JavaScript templates seen with a due and correct report at github-script.script", n, len(c11JSTemplates)))
+	}
+	for _, f := range []string{"close2-before", "placeholder-after-first-line", "style-literal", "style-folded", "crlf-file"} {
+		if !r.SetHas("non_script_contexts", f) {
+			r.Inconclusive("context class never evaluated at a non-script position: " + f)
 		}
 	}
 	for _, f := range []string{"single", "multi"} {
